@@ -269,7 +269,15 @@ where
                 });
             }
 
-            if block.prev_hash() != prev.block_hash() {
+            // The `prev_hash` field is supplied by the (untrusted) server. Compare the raw
+            // field when there is no parsable header: a field that is not 32 bytes long cannot
+            // match the parent's hash, and is reported as a mismatch rather than panicking the
+            // scanner (`CompactBlock::prev_hash` panics on such a field).
+            let prev_hash_matches = match block.header() {
+                Some(header) => header.prev_block == prev.block_hash(),
+                None => block.prev_hash[..] == prev.block_hash().0[..],
+            };
+            if !prev_hash_matches {
                 debug!("Block hash discontinuity at {:?}", block.height());
                 return Some(ScanError::PrevHashMismatch {
                     at_height: block.height(),
